@@ -251,6 +251,8 @@ struct PoolState<P: ConnectionProvider> {
 
 impl<P: ConnectionProvider> PoolState<P> {
     async fn try_send(&self, request: DnsRequest) -> Result<DnsResponse, NetError> {
+        #[cfg(hickory_dns_verif)]
+        use tokio::time::Instant;
         let mut servers = self.servers.clone();
         match self.cx.options.server_ordering_strategy {
             // select the highest priority connection
